@@ -13,6 +13,7 @@ import (
 	"google.golang.org/protobuf/proto"
 
 	"verifharness/canon"
+	"verifharness/coqfmt"
 	"verifharness/gen"
 )
 
@@ -62,12 +63,22 @@ func runC07(seed int64, n int, dir string, tier string) *Report {
 	g := gen.New(seed)
 	rep := NewReport("C07", seed)
 	rep.Rule = "n arbitrary Document values (absent metadata or node list, nil list elements, unknown enum numbers, empty/duplicate identifiers, dangling edges, cycles, no or many roots, document types with absent parts) x 7 registered formats; each serialized, serialized again, and serialized once more after serializing other documents; outputs compared as canonical JSON (timestamps blanked, arrays sorted); non-trivial = document with at least 2 nodes; distinct by hash"
-	cf := &CasesFile{Imports: "Model.Base Corr.CheckC07", Type: "case07", Eval: "mismatches"}
+	cf, xs, xc := newXlateCases()
+	coqfmt.DropNil = true
+	defer func() { coqfmt.DropNil = false }()
 	var prev []*sbom.Document
 	for i := 0; i < n; i++ {
 		d := g.WildDocument()
 		if i%10 == 0 {
 			d = randomDocument(g) // plain well-formed documents too
+		}
+		if coqfmt.Lossy(d) {
+			// nil elements nested inside nodes (or lists of nil elements only): the oracle below covers
+			// them; the model has no value for them
+			rep.Count("seams_skipped:nested-nil")
+		} else {
+			spdxSeams(rep, xs, g, d, "wild")
+			cdxSeams(rep, xc, d, "wild", gen.Pick(g, []string{"1.3", "1.4", "1.5"}))
 		}
 		for _, f := range allWriterFormats {
 			rep.OracleEvals++
